@@ -125,6 +125,7 @@ type lprog struct {
 	alive  bool
 	tmo    bool
 	custom bool // Close of the socket reports errCloseCustom
+	gate   int  // Close calls wait until one caller is elected in the handshake and this many are parked behind it
 	ths    [][]lop
 }
 
@@ -137,7 +138,11 @@ func (p lprog) String() string {
 		}
 		ts = append(ts, fmt.Sprintf("T%d:[%s]", i, strings.Join(os, ";")))
 	}
-	return fmt.Sprintf("peer=%v hstimeout=%v customCloseErr=%v %s", map[bool]string{true: "alive", false: "dead"}[p.alive], p.tmo, p.custom, strings.Join(ts, " "))
+	g := ""
+	if p.gate > 0 {
+		g = fmt.Sprintf("closeAfter(elected+%dparked) ", p.gate)
+	}
+	return g + fmt.Sprintf("peer=%v hstimeout=%v customCloseErr=%v %s", map[bool]string{true: "alive", false: "dead"}[p.alive], p.tmo, p.custom, strings.Join(ts, " "))
 }
 
 func genLprog(r *hv.Rand) lprog {
@@ -244,10 +249,13 @@ func runClientProgram(env *lifeEnv, class string, p lprog, r *hv.Rand) {
 
 	seed := r.U64()
 	var ctr atomic.Uint64
-	var hsRuns atomic.Int32
+	var hsRuns, parked atomic.Int32
 	common.SetVerifYield(func(pt string) {
 		if pt == "cl.hs.run" {
 			hsRuns.Add(1)
+		}
+		if pt == "cl.hs.wait" {
+			parked.Add(1)
 		}
 		if !strings.HasPrefix(pt, "cl.") && !strings.HasPrefix(pt, "h.") {
 			return
@@ -284,6 +292,13 @@ func runClientProgram(env *lifeEnv, class string, p lprog, r *hv.Rand) {
 					case 0:
 						return lcode(cl.Handshake())
 					case 1:
+						if p.gate > 0 {
+							t0 := time.Now()
+							for (hsRuns.Load() < 1 || int(parked.Load()) < p.gate) && time.Since(t0) < 2*time.Second {
+								time.Sleep(200 * time.Microsecond)
+							}
+							time.Sleep(3 * time.Millisecond) // let the parked callers reach <-handshakeDone
+						}
 						return lcode(cl.Close())
 					case 2:
 						_, err := cl.ReadMsg(buf[i])
@@ -431,6 +446,18 @@ func runClientProgram(env *lifeEnv, class string, p lprog, r *hv.Rand) {
 			}
 		}
 	}
+	// blocked calls are released by Close with end-of-stream (or by the handshake timeout with a
+	// timeout error): a raw socket error can only come out of a write on an established session
+	for i, t := range snap {
+		for _, o := range t {
+			if o.c == 0 || o.ret != 3 {
+				continue
+			}
+			if !p.alive || o.k == 0 || o.k == 2 {
+				fail("C17:released-by-close-without-eof", fmt.Sprintf("T%d %s returned the raw socket error instead of io.EOF (or a timeout error)", i, lopName[o.k]))
+			}
+		}
+	}
 	if runs > 1 {
 		fail("C17:handshake-ran-twice", fmt.Sprintf("clientHandshakeLocked was entered %d times", runs))
 	}
@@ -496,16 +523,18 @@ func runLifecycle(r *hv.Rand) {
 	}
 	// fixed shapes first: the races the lifecycle machine is about
 	fixed := []lprog{
-		{alive: false, ths: [][]lop{{{k: 0}}, {{k: 0}}, {{k: 2}}, {{k: 1}}}},               // dead peer, no timeout: only Close releases
+		{alive: false, ths: [][]lop{{{k: 0}}, {{k: 0}}, {{k: 2}}, {{k: 1}}}},                    // dead peer, no timeout: only Close releases
+		{alive: false, gate: 3, ths: [][]lop{{{k: 0}}, {{k: 0}}, {{k: 2}}, {{k: 3}}, {{k: 1}}}}, // one elected, three parked (Handshake/ReadMsg/WriteMsg), then Close
+		{alive: false, gate: 1, custom: true, ths: [][]lop{{{k: 0}}, {{k: 2}}, {{k: 1}}, {{k: 1}}}},
 		{alive: false, custom: true, ths: [][]lop{{{k: 0}}, {{k: 1}}, {{k: 1}}, {{k: 1}}}}, // concurrent closers, custom result
 		{alive: true, ths: [][]lop{{{k: 0}}, {{k: 0}}, {{k: 0}}, {{k: 0}}}},                // concurrent handshakers: one handshake
 		{alive: true, custom: true, ths: [][]lop{{{k: 0}, {k: 2}}, {{k: 3}}, {{k: 1}}, {{k: 1}}}},
-		{alive: false, tmo: true, ths: [][]lop{{{k: 0}}, {{k: 0}}, {{k: 3}}}},              // handshake timeout releases all
+		{alive: false, tmo: true, ths: [][]lop{{{k: 0}}, {{k: 0}}, {{k: 3}}}}, // handshake timeout releases all
 		{alive: true, ths: [][]lop{{{k: 1}}, {{k: 0}}, {{k: 2}}, {{k: 3}}}},
 	}
 	for _, p := range fixed {
 		for k := 0; k < hv.Scale(2, 40); k++ {
-			q := lprog{alive: p.alive, tmo: p.tmo, custom: p.custom}
+			q := lprog{alive: p.alive, tmo: p.tmo, custom: p.custom, gate: p.gate}
 			for _, t := range p.ths {
 				nt := make([]lop, len(t))
 				for i := range t {
